@@ -65,8 +65,9 @@ def worker_init():
 
     ctxsim.warm_up()
     sys.dont_write_bytecode = True
-    _DIR = tempfile.mkdtemp(prefix="jtv_c19_")
-    atexit.register(shutil.rmtree, _DIR, True)
+    from ..core import scratch_dir
+
+    _DIR = scratch_dir("jtv_c19_")
     for name in ("c19mod_a", "c19mod_b"):
         with open(os.path.join(_DIR, name + ".py"), "w") as f:
             f.write("import numpy as np\nfrom jaxtyping import Float\n\ndef f(x: Float[np.ndarray, '3']):\n    return 1\n")
